@@ -51,8 +51,12 @@ CONSTANTS Alphabet, MaxLen, ND
 VARIABLES inp, out
 
 Wrap == <<LBC>>
+\* judged twice: as it is, and closed by " }" (stage 1 hands over the positions of the last index buffer only
+\* when it accepts, so the closed form is the one whose positions are fully observable)
 Out(i) == LET s == Wrap \o i  r == Structurals(s, ND)
-          IN [pos |-> r[5], ok |-> Stage1OK(s, ND), err |-> r[4], instr |-> r[1]]
+              s2 == s \o <<SP, RBC>>  r2 == Structurals(s2, ND)
+          IN [pos |-> r[5], ok |-> Stage1OK(s, ND), err |-> r[4], instr |-> r[1],
+              pos2 |-> r2[5], ok2 |-> Stage1OK(s2, ND)]
 
 Init == inp = <<>> /\ out = Out(<<>>)
 Next == /\ Len(inp) < MaxLen
